@@ -14,6 +14,15 @@ CHECKS = {
     "C13": ("props_pipeline", "check_c13"),
     "C14": ("props_pipeline", "check_c14"),
     "C12": ("props_validate", "check_c12"),
+    "C01": ("props_codec", "check_c01"),
+    "C02": ("props_codec", "check_c02"),
+    "C03": ("props_codec", "check_c03"),
+    "C04": ("props_codec", "check_c04"),
+    "C05": ("props_codec", "check_c05"),
+    "C06": ("props_codec", "check_c06"),
+    "C07": ("props_build", "check_c07"),
+    "C15": ("props_build", "check_c15"),
+    "C17": ("props_build", "check_c17"),
     "C09": ("props_format", "check_c09"),
     "C10": ("props_format", "check_c10"),
 }
